@@ -92,5 +92,6 @@ func init() {
 	noop := func(ctx *Ctx, c Cmd, ev Ev) {}
 	register("leak.pair", noop)
 	register("pc.pair", noop)
+	register("pc.entered", noop)
 	register("leak.schedule", noop)
 }
